@@ -4,6 +4,12 @@
 ; @literal bzero
 ; the separator []byte{0} as the code builds it: a 1-byte zeroed array with byte 0 stored at 0
 (define-fun sep0 () Str (bset (bzero 1) 0 0))
+; length and indexing of component lists
+(assert (= (sllen snil) 0))
+(assert (forall ((h Str) (t SL)) (! (= (sllen (scons h t)) (+ 1 (sllen t))) :pattern ((sllen (scons h t))))))
+(assert (forall ((l SL)) (! (>= (sllen l) 0) :pattern ((sllen l)))))
+(assert (forall ((h Str) (t SL)) (! (= (slnth (scons h t) 0) h) :pattern ((slnth (scons h t) 0)))))
+(assert (forall ((h Str) (t SL) (i Int)) (! (=> (> i 0) (= (slnth (scons h t) i) (slnth t (- i 1)))) :pattern ((slnth (scons h t) i)))))
 (define-fun-rec allnz ((l SL)) Bool (ite ((_ is snil) l) true (and (nozero (shd l)) (allnz (stl l)))))
 ; --- standard-library axioms (bytes.Join / bytes.Split / bytes.HasPrefix), validated by a bounded
 ; --- differential test against the real functions (scripts/validate_axioms.go)
